@@ -127,6 +127,9 @@ func (w *world) request(ctx context.Context, in []byte) (result, Snap, Snap) {
 		p0 := persist.NewPersister(w.store).WithContent(state.NewState(w.cfg.FlagCount), cache.NewCache())
 		if p0.Load(w.cfg.SessionId) == nil {
 			before = Take(p0.GetState(), p0.Memory)
+		} else {
+			// nothing stored yet: a session that does not exist is a pristine one
+			before = Take(state.NewState(w.cfg.FlagCount), cache.NewCache())
 		}
 	} else {
 		before = Take(w.st, w.ca)
@@ -140,6 +143,8 @@ func (w *world) request(ctx context.Context, in []byte) (result, Snap, Snap) {
 		p1 := persist.NewPersister(w.store).WithContent(state.NewState(w.cfg.FlagCount), cache.NewCache())
 		if p1.Load(w.cfg.SessionId) == nil {
 			after = Take(p1.GetState(), p1.Memory)
+		} else {
+			after = Take(state.NewState(w.cfg.FlagCount), cache.NewCache())
 		}
 	} else {
 		after = Take(w.st, w.ca)
@@ -188,7 +193,7 @@ func TwoRun(v *vrt.Ctx) {
 		}
 	}
 	refused := Refused(v)
-	at := 1 + v.Choice("insert-before", k) // 1..k (k = after the last one)
+	at := v.Choice("insert-before", k+1) // 0..k (0 = the first thing the engine sees, k = after the last one)
 	if first {
 		v.Finding("F16-first-function-sees-refused-input", true)
 	}
